@@ -4,6 +4,7 @@
 -/
 import SnowModel.Ops.OpCond
 import SnowModel.Ops.Simpson
+import SnowModel.Ops.Snowing
 import SnowModel.Ops.Snowing2D
 
 open Lean Snow
@@ -11,6 +12,7 @@ open Lean Snow
 def allOps : List (String × Op) :=
   Snow.Ops.opCondOps
   ++ Snow.Ops.simpsonOps
+  ++ Snow.Ops.snowingOps
   ++ Snow.Ops.snowing2DOps
 
 def handle (line : String) : String :=
